@@ -106,6 +106,9 @@ fn cases(thorough: bool) -> Vec<Case> {
     add("repeat", "[{0}; {1}]", vec![p("int", "7"), p("int", "2")], None);
     add("tuple", "({0}, {1}, {2})", vec![p("int", "1"), p("str", "\"s\""), p("bool", "true")], None);
     add("struct", "struct{ a := {0}, b := {1}, c := {2} }", vec![p("int", "1"), p("int", "2"), p("int", "3")], None);
+    add("struct, names not in alphabetical order", "struct{ c := {0}, a := {1}, b := {2} }", vec![p("int", "1"), p("int", "2"), p("int", "3")], None);
+    add("struct in struct", "struct{ z := struct{ y := {0}, x := {1} }, a := {2} }", vec![p("int", "1"), p("int", "2"), p("int", "3")], None);
+    add("tuple of arrays", "([{0}, {1}], [{2}])", vec![p("int", "1"), p("int", "2"), p("int", "3")], None);
     add("nested literals", "[({0}, {1}).0, [{2}, {3}][0]]", vec![p("int", "1"), p("int", "2"), p("int", "3"), p("int", "4")], None);
     // indexing and slicing: subject / start / stop / step
     add("index", "{0}[{1}]", vec![p("arr", "[1, 2, 3]"), p("int", "1")], None);
